@@ -832,6 +832,11 @@ class Schema(BaseField):
         val = field.__getval__(config)
         if isinstance(field, Field):
             field.validate(config, val)
+            if isinstance(val, ContainerValueMixin):
+                # configurations held in a list are validated like nested sub-configurations
+                for item in val:  # type: ignore
+                    if isinstance(item, Config):
+                        item.validate()
         elif isinstance(val, Config):
             val.validate()
 
